@@ -122,6 +122,40 @@ func TestNamespace(t *testing.T) {
 					t.Fatal(err)
 				}
 				ds = w.Dsm.GetDataset("nsdata")
+			case "storetxn":
+				// the same (possibly never seen) identifier in two datasets of one transaction, written as full URIs
+				// the way a transaction payload carries them
+				_, _ = w.Dsm.CreateDataset("nsdata2", nil)
+				mk := func() *server.Entity {
+					curie, err := w.Store.GetNamespacedIdentifier(st.URI, map[string]string{})
+					if err != nil {
+						return nil
+					}
+					return server.NewEntity(curie, 0)
+				}
+				e1, e2 := mk(), mk()
+				sum.Checks++
+				if e1 == nil || e2 == nil {
+					r.Divs = append(r.Divs, Divergence{Kind: "curie", Query: st.URI, Expected: "a CURIE", Actual: "error"})
+					continue
+				}
+				if i := strings.Index(e1.ID, ":"); i > 0 {
+					emit(nsEvent{K: "ns", Exp: st.Exp, Prefix: e1.ID[:i]})
+				}
+				txn := &server.Transaction{DatasetEntities: map[string][]*server.Entity{"nsdata": {e1}, "nsdata2": {e2}}}
+				if err := w.Store.ExecuteTransaction(txn); err != nil {
+					r.Divs = append(r.Divs, Divergence{Kind: "store", Query: st.URI, Expected: "stored", Actual: err.Error()})
+					continue
+				}
+				emit(nsEvent{K: "id", URI: st.URI, ID: e1.InternalID})
+				emit(nsEvent{K: "id", URI: st.URI, ID: e2.InternalID})
+				for _, dn := range []string{"nsdata", "nsdata2"} {
+					if ent, err := w.Store.GetEntity(st.URI, []string{dn}, true); err == nil && ent != nil && ent.InternalID != 0 {
+						emit(nsEvent{K: "id", URI: st.URI, ID: ent.InternalID})
+					} else {
+						r.Divs = append(r.Divs, Divergence{Kind: "stored-id", Query: st.URI, Expected: "entity found by its URI in " + dn, Actual: fmt.Sprint(err)})
+					}
+				}
 			case "payload":
 				// the payload binds a prefix the hub uses for something else (ns0 / ns1: the hub's own core
 				// namespaces, or the newest prefix handed out) to this URI's expansion
@@ -185,7 +219,7 @@ func TestNamespace(t *testing.T) {
 			emit(nsEvent{K: "ctxall", Pairs: ctxPairs(w)})
 			// ids of everything stored so far resolve to the same id (also after restarts)
 			for _, u := range b.Steps {
-				if u.A != "store" && u.A != "payload" {
+				if u.A != "store" && u.A != "payload" && u.A != "storetxn" {
 					continue
 				}
 				if ent, err := w.Store.GetEntity(u.URI, []string{"nsdata"}, true); err == nil && ent != nil && ent.InternalID != 0 {
